@@ -45,7 +45,8 @@ MOVE_ACTIONS = [
     # condition is about the state before the action)
     ("pulse", [("?a", "t1")], ["and"],
      ["and", ["not", ["p", "?a"]], ["forall", ["?z", "-", "t1"], ["when", ["and", ["q", "?a", "?z"], ["p", "?a"]], ["p", "?z"]]],
-      ["assign", ["f", "?a"], "0"]]),
+      # two numeric effects that read each other's target, one of them the zero-arity fluent
+      ["assign", ["f", "?a"], ["g"]], ["increase", ["g"], ["f", "?a"]]]),
 ]
 
 
